@@ -10,7 +10,6 @@ import (
 	"mellium.im/xmlstream"
 	"mellium.im/xmpp"
 	"mellium.im/xmpp/jid"
-	"mellium.im/xmpp/stanza"
 	"verifharness/hx"
 )
 
@@ -309,6 +308,9 @@ func genOps(r *hx.Rand) []pat {
 		t := kindTypes[k][r.Intn(len(kindTypes[k]))]
 		if r.Chance(1, 25) {
 			t = "bogus"
+			if k == 2 && r.Chance(1, 2) {
+				t = "Chat"
+			}
 		}
 		nm := uniNames[r.Intn(len(uniNames))]
 		if r.Chance(1, 8) {
@@ -384,7 +386,8 @@ func genAttrs(r *hx.Rand, kind int, space string) []attrS {
 	switch r.Intn(10) {
 	case 0:
 	case 1:
-		as = append(as, attrS{L: "type", V: "bogus"})
+		// unknown, mis-cased and empty type values (a message with one of these is a normal message)
+		as = append(as, attrS{L: "type", V: []string{"bogus", "bogus", "Chat", "", "NORMAL", "Result"}[r.Intn(6)]})
 	case 2:
 		as = append(as, attrS{L: "type", V: kindTypes[kind][r.Intn(len(kindTypes[kind]))]}, attrS{L: "type", V: kindTypes[kind][r.Intn(len(kindTypes[kind]))]})
 	case 3:
@@ -417,6 +420,22 @@ func genAttrs(r *hx.Rand, kind int, space string) []attrS {
 	}
 	if r.Chance(1, 6) {
 		as = append(as, attrS{L: "other", V: "1"})
+	}
+	// attributes of the same local names in a foreign name space, after the
+	// stanza's own: they say nothing about the stanza
+	if r.Chance(1, 5) {
+		n := 1 + r.Intn(2)
+		for i := 0; i < n; i++ {
+			switch r.Intn(4) {
+			case 0, 1:
+				as = append(as, attrS{S: "y", L: "type", V: kindTypes[kind][r.Intn(len(kindTypes[kind]))]})
+			case 2:
+				as = append(as, attrS{S: "y", L: "id", V: "foreign"})
+			default:
+				as = append(as, attrS{S: "y", L: []string{"to", "from"}[r.Intn(2)], V: []string{"other@example.org", "@@bad@@"}[r.Intn(2)]})
+			}
+		}
+		return as
 	}
 	if len(as) > 1 && r.Chance(1, 3) { // attribute order must not matter
 		i, j := r.Intn(len(as)), r.Intn(len(as))
@@ -546,6 +565,24 @@ var corpus = []dcase{
 	mk([]pat{{K: 2, T: "chat", H: 1}}, "jabber:client", "jabber:client", "message", withType("chat"), []beh{{Reads: 99}}, tokS{K: "t", Text: "text only"}),
 	// stanza names in another namespace are not stanzas
 	mk([]pat{{K: 1, T: "get", H: 1}}, "jabber:client", "jabber:server", "iq", withType("get"), nil, tokS{K: "s", S: "x", L: "a"}, tokS{K: "e", S: "x", L: "a"}),
+	// attributes in a foreign name space say nothing about the stanza: a get IQ carrying y:type='result'
+	// (y:id, y:to, y:from) after its own attributes is a get IQ - handlers for both types / no handler at all
+	mk([]pat{{K: 1, T: "get", S: "x", L: "a", H: 1}, {K: 1, T: "result", S: "x", L: "a", H: 2}}, "jabber:client", "jabber:client", "iq",
+		append(withType("get"), attrS{S: "y", L: "type", V: "result"}), []beh{{Reads: 9}}, tokS{K: "s", S: "x", L: "a"}, tokS{K: "e", S: "x", L: "a"}),
+	mk(nil, "jabber:client", "jabber:client", "iq",
+		append(withType("get"), attrS{S: "y", L: "type", V: "result"}, attrS{S: "y", L: "id", V: "foreign"}, attrS{S: "y", L: "from", V: "other@example.org"}), nil,
+		tokS{K: "s", S: "x", L: "a"}, tokS{K: "e", S: "x", L: "a"}),
+	mk([]pat{{K: 1, T: "set", H: 1}}, "jabber:client", "jabber:client", "iq",
+		append(withType("set"), attrS{S: "y", L: "to", V: "@@bad@@"}, attrS{S: "y", L: "id", V: "foreign"}), []beh{{Reads: 9}}, tokS{K: "s", S: "x", L: "a"}, tokS{K: "e", S: "x", L: "a"}),
+	mk([]pat{{K: 2, T: "chat", S: "x", L: "a", H: 1}, {K: 2, T: "normal", S: "x", L: "a", H: 2}}, "jabber:client", "jabber:client", "message",
+		append(withType("chat"), attrS{S: "y", L: "type", V: "normal"}), []beh{{Reads: 9}}, tokS{K: "s", S: "x", L: "a"}, tokS{K: "e", S: "x", L: "a"}),
+	// a message whose type value is unknown or mis-cased is a normal message: the normal patterns are
+	// consulted, not patterns registered under the literal value
+	mk([]pat{{K: 2, T: "normal", S: "x", L: "a", H: 1}, {K: 2, T: "bogus", S: "x", L: "a", H: 2}}, "jabber:client", "jabber:client", "message", withType("bogus"), []beh{{Reads: 9}},
+		tokS{K: "s", S: "x", L: "a"}, tokS{K: "e", S: "x", L: "a"}),
+	mk([]pat{{K: 2, T: "chat", S: "x", L: "a", H: 1}, {K: 2, T: "Chat", S: "x", L: "a", H: 2}, {K: 2, T: "normal", S: "", L: "a", H: 3}}, "jabber:client", "jabber:client", "message", withType("Chat"), []beh{{Reads: 9}},
+		tokS{K: "s", S: "x", L: "a"}, tokS{K: "e", S: "x", L: "a"}),
+	mk([]pat{{K: 2, T: "normal", H: 1}, {K: 2, T: "bogus", H: 2}}, "jabber:client", "jabber:client", "message", withType("bogus"), []beh{{Reads: 9}}),
 	// registration refusals
 	{Kind: "register", NS: "jabber:client", Ops: []pat{{K: 1, T: "get", S: "x", L: "a", H: 1}, {K: 1, T: "get", S: "x", L: "a", H: 2}}},
 	{Kind: "register", NS: "jabber:client", Ops: []pat{{K: 1, T: "get", S: "x", L: "a", H: 1, Nil: 1}}},
@@ -647,7 +684,8 @@ func (x *runner) session(c *dcase) {
 	if direct.Ret == "panic" {
 		return // reported by the dispatch driver
 	}
-	run := &run{script: append([]beh(nil), c.Script...)}
+	run := newRun(c)
+	run.noNest = true
 	m, refused := newMux(c.NS, c.Ops, run)
 	if refused != "" {
 		return
@@ -718,10 +756,10 @@ func (x *runner) session(c *dcase) {
 		x.fail("C14/session/serve-failed", "Serve failed on an element the mux handles without error: "+serveErr.Error(), c)
 	}
 	// the handlers must have seen exactly what the direct driver showed them
-	if a, b := absEvents(run.events), absEvents(direct.Events); a != b {
+	if a, b := absEvents(run.top.evs()), absEvents(direct.Events); a != b {
 		x.fail("C14/session/differs-from-direct", "served session: "+a+" / direct HandleXMPP: "+b, c)
 	}
-	x.oracle(c, obs{Events: run.events, Ret: direct.Ret, Written: direct.Written}, "session")
+	x.oracle(c, obs{Events: run.top.evs(), Ret: direct.Ret, Written: direct.Written}, "session")
 	// on the wire: get/set IQs are answered exactly once, nothing else is
 	elems, _, _, perr := hx.ParseTopLevel(wire, c.NS)
 	typ := ""
@@ -736,7 +774,10 @@ func (x *runner) session(c *dcase) {
 			n++
 		}
 	}
-	_, addrErr := stanza.NewIQ(startOf(c)) // an IQ whose addresses do not parse cannot be answered by the mux (not C14's concern)
+	var addrErr error // an IQ whose addresses do not parse cannot be answered by the mux (not C14's concern)
+	if headerOf(c).Bad {
+		addrErr = errHandler
+	}
 	if perr == nil && c.Name[1] == "iq" && (typ == "get" || typ == "set") && hpanic == "" && addrErr == nil && (direct.Ret != "err" || len(direct.Events) == 0) {
 		if n != 1 {
 			x.fail("C14/session/iq-unanswered", fmt.Sprintf("a %s IQ was answered %d times on the wire (Serve stopped=%v err=%v)", typ, n, stopped, serveErr), c)
